@@ -69,6 +69,20 @@ class Binding(tuple):
     """('func', FunctionInfo) | ('class', ClassInfo) | ('module', short name) | ('ext', dotted) | ('value', ModuleInfo, expr)"""
 
 
+class _NoParents(object):
+    """deepcopy helper: copy a subtree without dragging the whole module along through the _parent links"""
+
+
+def _strip_parents(node):
+    import copy
+    memo = {}
+    p = getattr(node, "_parent", None)
+    if p is not None:
+        memo[id(p)] = None  # the link out of the subtree is cut, the links inside it are copied
+    clone = copy.deepcopy(node, memo)
+    return clone
+
+
 class Program(object):
     def __init__(self, repo=None):
         self.repo = repo or REPO
@@ -76,6 +90,8 @@ class Program(object):
         self.modules = {}
         self._load()
         self._index()
+        from sa import cfg as _cfg
+        _cfg.PRED_INLINER = self.inline_pred
 
     # ------------------------------------------------------------------ loading
     def _load(self):
@@ -296,6 +312,16 @@ class Program(object):
                 if b[0] == "class":
                     mth = b[1].methods.get(expr.attr)
                     return [mth] if mth else []
+                if base.id in ("self", "cls"):
+                    # a method of the class the call is written in
+                    c = at
+                    while c is not None and not isinstance(c, ast.ClassDef):
+                        c = getattr(c, "_parent", None)
+                    if c is not None:
+                        for ci in self.module_of(c).classes.values():
+                            if ci.node is c:
+                                mth = ci.methods.get(expr.attr)
+                                return [mth] if mth else []
             elif isinstance(base, ast.Attribute):
                 inner = self.resolve_expr_fn(base, at)
                 return [("ext", "%s.%s" % (t[1], expr.attr)) for t in inner if isinstance(t, tuple) and t[0] == "ext"]
@@ -309,6 +335,71 @@ class Program(object):
         if isinstance(expr, ast.IfExp):
             return self.resolve_expr_fn(expr.body, at) + self.resolve_expr_fn(expr.orelse, at)
         return []
+
+    def inline_pred(self, call):
+        """`helper(args)` where helper is a function of the package whose body is a single `return <expr>`: that
+        expression with the parameters replaced by the arguments (a fresh tree, parent-linked, positioned at the call);
+        None when the callee is not of that shape.  Lets condition analyses see through predicate helpers."""
+        key = id(call)
+        cache = self.__dict__.setdefault("_inline_cache", {})
+        if key in cache and cache[key][0] is call:
+            return cache[key][1]
+        out = None
+        try:
+            tg = [t for t in self.resolve_expr_fn(call.func, call) if isinstance(t, FunctionInfo)]
+        except AnalysisError:
+            tg = []
+        if len(tg) == 1 and isinstance(tg[0].node, (ast.FunctionDef,)):
+            fd = tg[0].node
+            body = [st for st in fd.body if not (isinstance(st, ast.Expr) and isinstance(st.value, ast.Constant) and isinstance(st.value.value, str))]
+            a = fd.args
+            if len(body) == 1 and isinstance(body[0], ast.Return) and body[0].value is not None and a.vararg is None and a.kwarg is None \
+                    and not any(isinstance(x, ast.Starred) for x in call.args) and all(k.arg for k in call.keywords):
+                pn = [x.arg for x in a.posonlyargs + a.args]
+                is_method = isinstance(getattr(fd, "_parent", None), ast.ClassDef) and pn and pn[0] in ("self", "cls") and isinstance(call.func, ast.Attribute)
+                bind = {}
+                if is_method:
+                    bind[pn[0]] = call.func.value
+                    pn_ = pn[1:]
+                else:
+                    pn_ = pn
+                ok = len(call.args) <= len(pn_)
+                for nme, v in zip(pn_, call.args):
+                    bind[nme] = v
+                for k in call.keywords:
+                    if k.arg in pn or k.arg in [x.arg for x in a.kwonlyargs]:
+                        bind[k.arg] = k.value
+                    else:
+                        ok = False
+                defaults = dict(zip(pn[len(pn) - len(a.defaults):], a.defaults))
+                defaults.update({x.arg: d for x, d in zip(a.kwonlyargs, a.kw_defaults) if d is not None})
+                for nme in pn + [x.arg for x in a.kwonlyargs]:
+                    if nme not in bind:
+                        if nme in defaults:
+                            bind[nme] = defaults[nme]
+                        else:
+                            ok = False
+                if ok:
+                    import copy
+
+                    class Sub(ast.NodeTransformer):
+                        def visit_Name(self_, n):
+                            if n.id in bind and isinstance(n.ctx, ast.Load):
+                                return copy.deepcopy(_strip_parents(bind[n.id]))
+                            return n
+
+                        def visit_Lambda(self_, n):
+                            return n
+                    expr = Sub().visit(copy.deepcopy(_strip_parents(body[0].value)))
+                    for x in ast.walk(expr):
+                        ast.copy_location(x, call)
+                        for ch in ast.iter_child_nodes(x):
+                            ch._parent = x
+                    expr._parent = getattr(call, "_parent", None)
+                    expr._inlined_from = call
+                    out = expr
+        cache[key] = (call, out)
+        return out
 
     def ext_name(self, expr, at=None):
         """Dotted external name a Name/Attribute expression denotes ('os.path.isfile'), or None."""
@@ -400,6 +491,16 @@ class Program(object):
         rule examines when it is about `what fi does`, so that extracting a private helper does not hide a construct."""
         out = [f for f in self.reachable([fi]) if not same_module or f.module is fi.module]
         return out
+
+    def owner_name(self, fi):
+        """qualname under which a construct inside fi is reported: a private module-level helper that serves exactly one
+        public function of its module is attributed to that function, so extracting the helper does not rename a finding"""
+        local = fi.qualname.split(".", 1)[1] if "." in fi.qualname else fi.qualname
+        if not local.startswith("_") or local.startswith("__") or "." in local:
+            return fi.qualname
+        owners = [g for g in fi.module.functions.values() if g is not fi and "." not in g.qualname.split(".", 1)[1] and not g.qualname.split(".", 1)[1].startswith("_")
+                  and fi in self.region(g)]
+        return owners[0].qualname if len(owners) == 1 else fi.qualname
 
     def callers_of(self, fi):
         """(caller FunctionInfo or None for module level, Call node) for every call whose func resolves to fi."""
